@@ -210,6 +210,18 @@ def run(ck):
                                         if bad:
                                             why = "a training row measured in '%s' is %s the pool the negative chains start from; the pool must hold exactly the rows whose every site is Z" % (
                                                 " ".join("Z" if z else "X" for z in bad[0]), "put into" if tab[bad[0]] else "left out of")
+                                elif zt == T.sym("data") and any(len(c_) > 3 and getattr(c_[3], "term", None) is not None and "input_bases" in c_[3].term.syms() for c_ in p.conds):
+                                    # this path has tested the bases: when that test established that every row is all Z, the whole set is the right pool
+                                    def _every_row_all_z(key):
+                                        a_ = key[1].single_atom() if key[0] == "t" and hasattr(key[1], "single_atom") else None
+                                        if not (isinstance(a_, T.App) and a_.op == "all" and hasattr(a_.args[0], "all_atoms")):
+                                            return False
+                                        tab_ = row_mask_table(a_.args[0], arr="input_bases", nsites=3)  # all(<row mask>): the mask must be `row is all Z`
+                                        return tab_ is not None and all(keep == all(row) for row, keep in tab_.items())
+
+                                    est = cond_truths(p, _every_row_all_z)
+                                    okz = True if est and set(est) == {True} else None
+                                    why = "the whole training set is the pool on a path that tested the bases in a way the analyser does not recognise as `every row is all Z`"
                                 elif zt == T.sym("data"):
                                     okz = False
                                     why = "the pool the negative chains start from is the whole training set (rows measured in rotated bases included); it must hold exactly the rows whose every site is Z"
